@@ -90,12 +90,16 @@ pub fn run_check(id: &str, tier: Tier) -> i32 {
             }
         }
         "C09" => {
-            ctx.rule("same histories; oracle: pre-state/post-state relation on the observed lease table; non-trivial = a holder asks again while holding a second lease / naming another address / after a pool change, or a refusal for lack of addresses");
+            ctx.rule("same histories; oracle: pre-state/post-state relation on the observed lease table; non-trivial = a holder asks again while holding a second lease / naming another address / after a pool change, or a refusal for lack of addresses; the clock is also placed one second before, at and after a client's expiry (no snapping), where only the reading-independent part is judged: a refusal needs every pool address held by another client whose lease may still be running");
             props_dhcp::run_hist_func(&ctx, id);
         }
         "C10" => {
             ctx.rule("same histories; oracle: option 51 present, 300..=86400, record duration equals it and record does not expire early; non-trivial = reply for an address the client already had a row for (lease time computed from history)");
             props_dhcp::run_hist_func(&ctx, id);
+            if ctx.violations.lock().unwrap().is_empty() {
+                ctx.rule("policy-options: generated configurations (policy trees whose apply-* options include lease-time as a value or null) x parameter request lists (any codes, incl. 51) through the real loader; DISCOVER then REQUEST through handle_pkt: both replies carry option 51 within [300,86400] and the record runs exactly that long; non-trivial = an applied policy names lease-time and the client asks for it");
+                props_policy::run_reply_invariants(&ctx, "C10");
+            }
             if wire_ok && ctx.violations.lock().unwrap().is_empty() {
                 ctx.rule("wire-dhcp-exchange: OFFER and ACK frames captured from the real erbium-dhcp: option 51 present and within bounds; the database row of the ACK runs exactly that long and does not expire early");
                 props_netwire::run_c10_wire(&ctx);
@@ -104,6 +108,10 @@ pub fn run_check(id: &str, tier: Tier) -> i32 {
         "C13" => {
             ctx.rule("same histories with every message type 0..255/absent and server-id kinds; oracle: frame condition on the lease table + header echo; non-trivial = an unanswered message arriving while the sender already has a row");
             props_dhcp::run_hist_func(&ctx, id);
+            if ctx.violations.lock().unwrap().is_empty() {
+                ctx.rule("policy-options: generated configurations (policy trees whose apply-* options include server-id as an address or null) x parameter request lists (any codes, incl. 54) through the real loader; DISCOVER then REQUEST through handle_pkt: both replies carry a server identifier naming this server and the right message type; non-trivial = an applied policy names server-id and the client asks for it");
+                props_policy::run_reply_invariants(&ctx, "C13");
+            }
         }
         "C18" => {
             ctx.rule("reopen: twin histories (file-backed, reopened at generated points) vs uninterrupted in-memory twin; oldschema: generated v0/v1/newer databases; non-trivial = reopen with live leases of >=2 clients / a database with rows");
@@ -126,7 +134,7 @@ pub fn run_check(id: &str, tier: Tier) -> i32 {
             ctx.rule("message: generated DHCP messages (all header values, hlen 0..16, option multisets with repeated/zero-length/1500-octet values) -> parse -> serialise -> parse and an RFC 2131/3396 decoder; frame: generated payloads 0..1472 x addresses x MACs through Fragment::new_udp4, decoded by an independent Ethernet/IPv4/UDP decoder with checksum verification; broadcast-flag: all 65536 flag values; non-trivial = long/repeated/zero-length option, odd payload, every flag value");
             props_codec::run_c12_func(&ctx);
             if wire_ok && ctx.violations.lock().unwrap().is_empty() {
-                ctx.rule("wire-dhcp-exchange: DISCOVER+REQUEST with sampled flag values against the real erbium-dhcp over a veth pair; captured frames decoded by the independent Ethernet/IPv4/UDP decoder: IPv4 destination is 255.255.255.255 iff bit 15, else yiaddr; Ethernet destination = chaddr; reply echoes xid/flags");
+                ctx.rule("wire-dhcp-exchange: DISCOVER, REQUEST and two renewals with ciaddr filled in (the flag value as sampled and with bit 15 inverted) against the real erbium-dhcp over a veth pair; captured frames decoded by the independent Ethernet/IPv4/UDP decoder: IPv4 destination is 255.255.255.255 iff bit 15, else yiaddr; Ethernet destination = chaddr; reply echoes xid/flags");
                 props_netwire::run_c12_wire(&ctx);
             }
         }
@@ -236,7 +244,7 @@ pub fn run_check(id: &str, tier: Tier) -> i32 {
             ctx.rule("bucket: burst B and rate R inferred black-box, then generated arrival sequences (dt in {0,1,2,10,49,50,51,10^4} s, sizes 0..3.2B) applied check-then-deplete as the limiter does, on a harness clock; oracle: every window's granted volume <= B + R*span (+R per grant rounding), idle >= B/R => request <= B granted; non-trivial = grant after a denial or an idle gap");
             props_dnsfunc::run_c16_func(&ctx);
             if wire_ok && ctx.violations.lock().unwrap().is_empty() {
-                ctx.rule("wire-limiter: on a fresh erbium-dns per case: (1) 1..4 sources that never spoke send one refused (ANY) query each over UDP and must get one REFUSED; (2) a burst of 200..2000 refused queries from one source gets REFUSED for at most a quarter, and not more than a 200-query burst from another source (+2); (3) a server cookie obtained from an answered query exempts a 60-query burst only with the same client cookie, source and server address; presented from another source, to another server address, with a flipped bit, with an invented server part, after a restart, or with a server part computed by the public algorithm (HMAC-SHA256 over client cookie, server address, client address) under a guessable key (all-zero, all-ones, 01..08) it does not");
+                ctx.rule("wire-limiter: on a fresh erbium-dns per case: (1) 1..4 sources that never spoke send one refused (ANY) query each over UDP and must get one REFUSED; (2) a burst of 200..2000 refused queries from one source address (spread over eight source ports) gets REFUSED for at most a quarter, and not more than a 200-query burst from another source (+2), and a second burst from the same source 0.3 s later gets at most 2; (3) a server cookie obtained from an answered query exempts a 60-query burst only with the same client cookie, source and server address; presented from another source, to another server address, with a flipped bit, with an invented server part, after a restart, or with a server part computed by the public algorithm (HMAC-SHA256 over client cookie, server address, client address) under a guessable key (all-zero, all-ones, 01..08) it does not");
                 ctx.assume("key rotation (24..36 h) cannot be driven in a running server: acceptance under the previous key and rejection after two rotations are not covered");
                 props_dnswire2::run_c16_wire(&ctx);
             }
